@@ -573,6 +573,8 @@ pub struct WorldCfg {
     pub emergency_unlock_penalty: Decimal,
     pub start_time: u64,
     pub epoch_duration: u64,
+    /// constant sub-second part of every block time (real chains report nanosecond block times)
+    pub subsec_nanos: u64,
 }
 
 impl Default for WorldCfg {
@@ -600,6 +602,7 @@ impl Default for WorldCfg {
             emergency_unlock_penalty: Decimal::percent(10),
             start_time: 1_700_000_000,
             epoch_duration: 86_400,
+            subsec_nanos: 0,
         }
     }
 }
@@ -760,7 +763,7 @@ impl World {
         all.push(owner.clone());
         let block = BlockInfo {
             height: 1,
-            time: Timestamp::from_seconds(cfg.start_time),
+            time: Timestamp::from_nanos(cfg.start_time * 1_000_000_000 + cfg.subsec_nanos),
             chain_id: "mantra-verif".into(),
         };
         let mut app: DexApp = AppBuilder::new()
@@ -1067,7 +1070,15 @@ impl World {
 
     pub fn set_time(&mut self, secs: u64) {
         let mut b = self.app.block_info();
-        b.time = Timestamp::from_seconds(secs);
+        b.time = if secs < u64::MAX / 1_000_000_000 { Timestamp::from_nanos(secs * 1_000_000_000 + self.cfg.subsec_nanos) } else { Timestamp::from_seconds(secs) };
+        b.height += 1;
+        self.app.set_block(b);
+    }
+
+    /// block time with a sub-second part (real chains report nanosecond block times)
+    pub fn set_time_ns(&mut self, secs: u64, nanos: u64) {
+        let mut b = self.app.block_info();
+        b.time = Timestamp::from_nanos(secs * 1_000_000_000 + nanos);
         b.height += 1;
         self.app.set_block(b);
     }
